@@ -334,3 +334,73 @@ def r5(ctx):
     from .c12 import r9 as no_hidden_sharing
     no_hidden_sharing(ctx)
 
+
+
+def _endpoint(url: str):
+    from urllib.parse import urlsplit
+    u = urlsplit(url)
+    return (u.scheme, (u.hostname or "").lower(), u.port or (443 if u.scheme == "wss" else 80))
+
+
+@rule("R-C11-6", min_instances=3, title="every opening handshake travels on a transport made for its own URL: after a redirect the request for a wss:// target is written only to a socket that _http.connect() created (and so TLS-wrapped) for that URL -- never to the connection the redirect arrived on")
+def r6(ctx):
+    """WebSocket.connect() with its redirect loop; _http.connect and handshake are the boundary.  The first answer is a
+    redirect whose Location differs from the original URL in the scheme only (same host, same explicit port)."""
+    from ..absint import RaiseSig
+    from ..models import BASE_STUBS, mk_websocket
+    idx = ctx.index
+    q = "_core:WebSocket.connect"
+    loc = idx.loc(idx.func(q).node)
+    for first, second, hdrs in (("ws://h.example:8443/a", "wss://h.example:8443/a", {}),
+                                ("ws://h.example:8443/a", "wss://h.example:8443/b", {"connection": C("keep-alive"), "content-length": C("0")}),
+                                ("wss://h.example/a", "wss://other.example/a", {}), ("wss://h.example/a", "ws://h.example:443/a", {})):
+        def conn(I, run, args, kwargs, node):
+            k = len([e for e in run.effects if e.name == "connect"])
+            s = Sym(f"transport{k}", "obj")
+            run.fact(s).truth = True
+            run.effect("connect", args, kwargs, node=node, ret=s)
+            url = I.resolve(run, args[0])
+            parts = I.call(run, I.make_fn(run, "_url:parse_url"), [url], {}, node)   # the repo's own split of the (constant) URL
+            return Tup((s, Tup(tuple(parts.items[:3])) if isinstance(parts, Tup) else parts))
+
+        def hs(I, run, args, kwargs, node, second=second, hdrs=hdrs):
+            k = len([e for e in run.effects if e.name == "handshake"])
+            run.effect("handshake", args, kwargs, node=node)
+            hd = dict(hdrs, location=C(second)) if k == 0 else {}
+            return new_obj(run, "_handshake:handshake_response", f"resp{k}", status=C(301 if k == 0 else 101), headers=new_dict(run, hd, False, f"hdrs{k}"), subprotocol=NONE)
+
+        stubs = dict(BASE_STUBS)
+        stubs.update({"_http:connect": conn, "_handshake:handshake": hs, "_http:proxy_info": lambda I, run, a, k, n: Sym("proxy", "obj")})
+        I = Interp(idx, Config(stubs=stubs))
+
+        def body(run, first=first):
+            ws = mk_websocket(I, run)
+            o = run.cell(ws)
+            o.fields["connected"] = FALSE
+            o.fields["sock"] = NONE
+            return I.call(run, I.getattr(run, ws, "connect", None), [C(first)], {}, None)
+
+        outs = ctx.count_paths(I.explore(body))
+        bad = None
+        n = 0
+        for o in outs:
+            made = {}
+            for e in o.effects:
+                if e.name == "connect" and e.ret is not None:
+                    made[e.ret.key()] = I.resolve(o.run, e.args[0])
+                if e.name == "handshake":
+                    n += 1
+                    sock, url = I.resolve(o.run, e.args[0]), I.resolve(o.run, e.args[1])
+                    for_url = made.get(sock.key()) if hasattr(sock, "key") else None
+                    if not (isinstance(url, C) and url.v.startswith("wss:")):
+                        continue   # C11 speaks about wss:// targets
+                    # the transport must have been created (hence wrapped and verified) for a wss:// URL naming the same host and port
+                    if not (isinstance(for_url, C) and _endpoint(for_url.v) == _endpoint(url.v)):
+                        bad = bad or (url, sock, for_url, o)
+        if n < 2:
+            raise AnalysisError(f"redirect {first} -> {second}: the second handshake is never reached")
+        if not second.startswith("wss:"):
+            continue
+        ctx.ob(f"{q}:redirect:{first}->{second}:handshake-on-its-own-transport", bad is None, f"{n} handshakes, each on the transport created for its URL" if bad is None else
+               f"the opening handshake for {bad[0]!r} is written to {bad[1]!r}, a transport created for {bad[2]!r}: the request (and every frame after it) for a wss:// target "
+               f"travels on the old connection -- no TLS handshake, no certificate or host-name check for the new target", loc, {"path": path_text(bad[3], 10)} if bad else None)
